@@ -61,6 +61,11 @@ def cid_specs(draw, kinds=KINDS, max_fields=5, types=gen_fields.TYPES, max_heade
     fields = []
     for index in range(n_fields):
         name = "%s%d" % (draw(st.sampled_from(["a", "b", "key", "Val", "x_"])), index)
+        if fields and draw(st.integers(0, 4)) == 0:
+            # a name that differs from an earlier one only in the case of its letters: two fields all the same
+            twin = draw(st.sampled_from(fields))["name"].swapcase()
+            if all(twin != f["name"] for f in fields):
+                name = twin
         for _ in range(4):
             field = draw(gen_fields.fields_of(name, fmt, types))
             accept, reject = _pools(draw, field, fmt)
